@@ -1,7 +1,7 @@
 SPECIFICATION GSpec
 CONSTANTS
   Clients = {"X", "Y"}
-  Defs = {"A", "B"}
+  Defs = {"A", "B", "R"}
   MaxOps = 100
   Dev = {}
   Depth = 6
